@@ -105,16 +105,14 @@ impl SyncOp {
                     timestamp: timestamp2,
                 },
             ) if uuid1 == uuid2 && property1 == property2 => {
-                // if the value is the same, there's no conflict
-                if value1 == value2 {
-                    (None, None)
-                } else if timestamp1 < timestamp2 {
-                    // prefer the later modification
-                    (None, Some(operation2))
-                } else {
-                    // prefer the later modification or, if the modifications are the same,
-                    // just choose one of them
-                    (Some(operation1), None)
+                // Prefer the later modification. Ties are broken by comparing the values, so
+                // that the result does not depend on the order in which the two operations are
+                // considered (that is, on which replica synchronizes first). Only when both
+                // timestamp and value are the same is there no conflict at all.
+                match (timestamp1, value1).cmp(&(timestamp2, value2)) {
+                    std::cmp::Ordering::Equal => (None, None),
+                    std::cmp::Ordering::Less => (None, Some(operation2)),
+                    std::cmp::Ordering::Greater => (Some(operation1), None),
                 }
             }
 
